@@ -163,14 +163,26 @@ class ExchangeMove(
         else:
             indices = self.attempt_deletion(context)
 
+            # the labels describe the atoms as they were before the trial: atoms deleted
+            # earlier in the same trial (a composite with another exchange move) are gone
+            # and the atoms behind them have moved up
+            earlier_indices = np.asarray(context._deleted_indices, dtype=np.int_)
+
+            if len(indices) and len(earlier_indices):
+                indices = np.setdiff1d(indices, earlier_indices)
+
             if len(indices):
+                current_indices = indices - np.searchsorted(
+                    np.sort(earlier_indices), indices
+                )
+
                 context._deleted_indices = np.hstack(
                     (context._deleted_indices, indices), dtype=np.int_, casting="unsafe"
                 )
-                context._deleted_atoms += context.atoms[indices]
+                context._deleted_atoms += context.atoms[current_indices]
                 context.particle_delta -= 1
 
-                del context.atoms[indices]
+                del context.atoms[current_indices]
                 return self.register_success()
 
         return self.register_failure()
